@@ -378,6 +378,21 @@ def check_c03(case, meta, contexts, out=None):
         out.skip("immediate_outside_den: " + str(exc)[:60])
         return out
 
+    oracle = case.get_oracle()
+    den_values = oracle.values if (oracle.ok and len(oracle.values) == len(envs)) else None
+
+    def defined_only(actual, expected, idx):
+        """drop the elements at which the textbook value is undefined (x/0, log of a negative ...): funsor's
+        eager and normalized evaluations legitimately differ there (inf vs clipped reciprocal)"""
+        if den_values is None or den_values[idx] is None or isinstance(den_values[idx], tuple):
+            return actual, expected
+        d = np.asarray(den_values[idx])
+        a, e = np.asarray(actual), np.asarray(expected)
+        if d.dtype.kind != "f" or a.shape != d.shape or e.shape != d.shape or not np.any(np.isnan(d)):
+            return actual, expected
+        keep = ~np.isnan(d)
+        return a[keep], e[keep]
+
     def compare(contract, result, what):
         if not isinstance(result, Funsor):
             out.skip("non_funsor_result")
@@ -388,7 +403,7 @@ def check_c03(case, meta, contexts, out=None):
         if off:
             out.bad(contract, "%s: inputs %s not among the expression's %s" % (what, dict(result.inputs), dict(space_inputs)), tags)
         n = 0
-        for env, expected in zip(envs, ref):
+        for idx, (env, expected) in enumerate(zip(envs, ref)):
             if expected is None:
                 continue
             try:
@@ -401,6 +416,7 @@ def check_c03(case, meta, contexts, out=None):
             except KeyError as exc:
                 out.bad(contract, "%s mentions a free variable missing from its inputs: %s" % (what, exc), tags)
                 return
+            actual, expected = defined_only(actual, expected, idx)
             ok, why = D.agree(actual, expected)
             n += 1
             if not ok:
